@@ -24,6 +24,9 @@ for _nd in range(20, 36):
         BAD.append("79228162514264337593543950335"[: max(1, _nd - 6)] + "." + "3" * 7 + _tail)
 
 
+INT_EDGES = sorted({sg * (v + d) for v in (0, 1, 2, 10, 1 << 31, 1 << 32, 1 << 63, 1 << 64) for d in (-1, 0, 1) for sg in (1, -1)})
+
+
 def lit_parts(text):
     if "." in text:
         ip, fp = text.split(".")
@@ -246,10 +249,17 @@ def run_shard(desc):
                 part["violations"].append({"sig": ["malformed-literal-accepted"], "what": "`%s` contains a malformed number but parse gave %s" % (p, r.get("p")), "replay": {"steps": [{"op": "parse", "text": p, "want": "a"}], "expect": "err"}})
     else:
         progs, labels = [], []
-        for _ in range(n):
+        # every shard starts with its slice of the full product of machine-integer edge values (where an implementation may switch
+        # to a native integer path) x operators
+        edge = [(x, a_, b_, o_) for x, (a_, b_, o_) in enumerate((a_, b_, o_) for a_ in INT_EDGES for b_ in INT_EDGES for o_ in OPS) if x % 20 == si % 20]
+        for k_ in range(n):
             a, b = rand_pair(rnd)
             op = rnd.choice(OPS)
             form = rnd.random()
+            if k_ < len(edge):
+                _, a, b, op = edge[k_]
+                a, b = (a, 0), (b, 0)
+                form = 0.12 + (form * 0.88)
             if form < 0.04:
                 # a zero with the sign bit set (only prefix minus makes one) against zeros and tiny numbers of either sign
                 z = ["un", "-", ["num", "0", rnd.choice([0, 0, 2, 28])]] if rnd.random() < 0.7 else ["un", "-", ["bin", "-", gen.num_lit(*a), gen.num_lit(*a)]]
